@@ -39,7 +39,7 @@ def fnode(p, size, cid=None, mtime=None, marks=None, islands=None):
     if size == 0:
         cid = ""
     n = {"p": list(p), "kind": "file", "size": pos(size), "cid": cid, "vcid": cid, "vsize": pos(size),
-         "mtime": mtime or 0, "ctime": 0, "target": [], "marks": marks or [], "unk": False}
+         "mtime": mtime or 0, "ctime": 0, "target": [], "marks": marks or [], "unk": False, "any": False}
     if islands is not None:
         n["islands"] = [[pos(o), pos(l)] for o, l in islands]
     return n
@@ -47,12 +47,12 @@ def fnode(p, size, cid=None, mtime=None, marks=None, islands=None):
 
 def dnode(p, mtime=None):
     return {"p": list(p), "kind": "dir", "size": pos(0), "cid": "", "vcid": "", "vsize": pos(0),
-            "mtime": mtime or 0, "ctime": 0, "target": [], "marks": [], "unk": False}
+            "mtime": mtime or 0, "ctime": 0, "target": [], "marks": [], "unk": False, "any": False}
 
 
 def lnode(p, target):
     return {"p": list(p), "kind": "link", "size": pos(0), "cid": "", "vcid": "", "vsize": pos(0),
-            "mtime": 0, "ctime": 0, "target": list(target), "marks": [], "unk": False}
+            "mtime": 0, "ctime": 0, "target": list(target), "marks": [], "unk": False, "any": False}
 
 
 BOUNDARY_SIZES = [0, 1, 2047, 2048, 2049, 65535, 65536, 65537, 200000]
